@@ -7,6 +7,7 @@ import Helm.Model.Ledger
 import Helm.Lemmas.Cluster
 import Helm.Model.DryRun
 import Helm.Gen.Tables
+import Helm.Spec.Skeletons
 
 namespace Helm.Props.C06
 open Helm.Ledger
@@ -139,5 +140,14 @@ theorem dry_run_spellings_are_the_models :
 example :
     (Helm.DryRun.installOp "r" "n" { option := "server" } false false [{ key := "crd/x" }] [{ key := "a" }] [{ key := "z" }]).log
       = [.get "a"] := by decide
+
+/-- The tie to the command line: the install `helm upgrade --install` falls back to gets both dry-run fields,
+the hook, CRD and ownership switches from the upgrade flags of the same name (regenerated from
+pkg/cmd/upgrade.go at every run). -/
+theorem upgrade_install_forwards_dry_run :
+    Helm.Spec.forwardsAll Helm.Gen.upgradeInstallForwards
+      [("DryRun", "client.DryRun"), ("DryRunOption", "client.DryRunOption"), ("DisableHooks", "client.DisableHooks"),
+       ("SkipCRDs", "client.SkipCRDs"), ("TakeOwnership", "client.TakeOwnership"), ("HideSecret", "client.HideSecret")] = true := by
+  decide
 
 end Helm.Props.C06
